@@ -24,7 +24,8 @@ LEVEL_TEXT = (
     "compare party and bit counts before the first index into the inputs; all comparisons against one bound use one comparator (G4). A field matched with `_` in validate cannot be "
     "guarded by it - exactly the defect found (Input.party / Input.input). Not decided: that the comparisons use the right "
     "bound values (value level; one such defect, max_reg_count == 0, was found by reading and repaired), and 'validation "
-    "accepts every compiler-produced circuit'.")
+    "accepts every compiler-produced circuit'."
+    " G2 also requires the output registers (which eval reads) to be looked up in the written-set.")
 LEVEL_NOTE = ("Trusted: rustc MIR; the Index<Reg> impls index by reg.0; Circuit::wires maps each Gate to the Wire of the same "
               "variant with the same operands (checked as rule G1b).")
 EXPLANATION = ("For register_circuit::Circuit and circuit::Circuit: required = origins of every Index/IndexMut operand and "
